@@ -77,6 +77,38 @@ struct Ctx
     }
 };
 
+// whole-model parse: built-in declarations are parsed at construction (shared prefix of all paths), then a whole-file XTA text goes through the
+// real lexer, grammar and DocumentBuilder and, if that reported nothing, the real TypeChecker (and on request FeatureChecker), as parse_XTA(buf, doc) does
+struct Model
+{
+    Document doc;
+    DocumentBuilder b;
+    Model(): b(doc) { parse_XTA(utap_builtin_declarations(), &b, true, S_DECLARATION, ""); }
+    bool load(const std::string& xta, bool features = false)
+    {
+        parse_XTA(xta.c_str(), &b, true, S_XTA, "");
+        if (!doc.has_errors()) {
+            TypeChecker tc{doc};
+            doc.accept(tc);
+            if (features) { FeatureChecker fc{doc}; doc.set_supported_methods(fc.get_supported_methods()); }
+        }
+        return !doc.has_errors();
+    }
+    bool has_error(const char* part) const
+    {
+        for (auto& e : doc.get_errors()) if (e.msg.find(part) != std::string::npos) return true;
+        return false;
+    }
+    // a query parsed and type-checked against this document; returns true if no new error was reported
+    bool query(const std::string& q)
+    {
+        size_t n0 = doc.get_errors().size();
+        TigaPropertyBuilder pb(doc);
+        int rc = parseProperty(q.c_str(), &pb, "");
+        return rc == 0 && doc.get_errors().size() == n0;
+    }
+};
+
 static inline void note_errors(const Document& d, size_t from = 0)
 {
     auto& es = d.get_errors();
